@@ -71,7 +71,7 @@ static CO_ERR COTSyncIdWrite(struct CO_OBJ_T *obj, struct CO_NODE_T *node, void 
     ASSERT_EQU_ERR(size, COT_ENTRY_SIZE, CO_ERR_BAD_ARG);
 
     sync = &node->Sync;
-    nid = *(uint32_t*)buffer;
+    CO_BUF_GET(nid, buffer);
     (void)uint32->Read(obj, node, &oid, sizeof(oid));
 
     /* when current entry is generating SYNCs, bits 0 to 29 shall not be changed */
